@@ -27,6 +27,12 @@ theorem unescGo_quot (cs : Text) :
     unescGo none ('&' :: 'q' :: 'u' :: 'o' :: 't' :: ';' :: cs) = (unescGo none cs).map ('"' :: ·) := by
   simp [unescGo, resolveEntity]
 
+theorem unescGo_cr (cs : Text) :
+    unescGo none ('&' :: '#' :: '1' :: '3' :: ';' :: cs) = (unescGo none cs).map ('\r' :: ·) := by
+  have h : resolveEntity ['#', '1', '3'] = some ['\r'] := by decide
+  simp [unescGo] at h ⊢
+  simp [h]
+
 theorem escape_cons (c : Char) (cs : Text) : escape (c :: cs) = escChar c ++ escape cs := by
   simp [escape]
 
@@ -41,6 +47,9 @@ theorem unescape_escape (s : Text) : unescape (escape s) = some s := by
   | cons c cs ih =>
     rw [escape_cons]
     unfold escChar
+    by_cases h0 : c = '\r'
+    · subst h0; simp only [if_true, List.cons_append, List.nil_append]; rw [unescGo_cr, ih]; rfl
+    rw [if_neg h0]
     by_cases h1 : c = '<'
     · subst h1; simp only [if_true, List.cons_append, List.nil_append]; rw [unescGo_lt, ih]; rfl
     · by_cases h2 : c = '>'
@@ -64,6 +73,9 @@ theorem unescape_partialEscape (s : Text) : unescape (partialEscape s) = some s 
   | cons c cs ih =>
     rw [partialEscape_cons]
     unfold pescChar
+    by_cases h0 : c = '\r'
+    · subst h0; simp only [if_true, List.cons_append, List.nil_append]; rw [unescGo_cr, ih]; rfl
+    rw [if_neg h0]
     by_cases h1 : c = '<'
     · subst h1; simp only [if_true, List.cons_append, List.nil_append]; rw [unescGo_lt, ih]; rfl
     · by_cases h2 : c = '>'
